@@ -60,20 +60,46 @@ func randDoc(r *core.Rand) *Doc {
 	if !r.Chance(1, 3) {
 		return nil
 	}
-	words := []string{"Doc", "for x.", "A 'quoted' thing", "returns \"y\"", "1 < 2", "# not a comment", "// neither", "ünï", "a*b", "/ slash"}
-	if r.Bool() {
+	words := []string{"Doc", "for x.", "A 'quoted' thing", "returns \"y\"", "1 < 2", "# not a comment", "// neither", "ünï", "a*b", "/ slash", "x", "-", ".", "a  b", "*starred*"}
+	switch r.Intn(4) {
+	case 0:
 		t := words[r.Intn(len(words))]
 		sp1, sp2 := strings.Repeat(" ", r.Intn(3)), strings.Repeat(" ", r.Intn(3)+1)
 		return &Doc{Raw: "/**" + sp1 + t + sp2 + "*/", Want: strings.TrimSpace(t)}
+	case 1:
+		// block without star decoration, uniformly indented
+		n := r.Range(1, 3)
+		var lines []string
+		raw := "/**\n"
+		for i := 0; i < n; i++ {
+			l := words[r.Intn(len(words))]
+			if strings.HasPrefix(l, "*") {
+				l = "w" + l
+			}
+			lines = append(lines, l)
+			raw += "   " + l + "\n"
+		}
+		raw += "*/"
+		return &Doc{Raw: raw, Want: strings.Join(lines, "\n")}
 	}
+	// star-decorated block; bare " *" lines may open, interrupt or close the text
 	n := r.Range(1, 4)
 	var lines []string
-	for i := 0; i < n; i++ {
-		lines = append(lines, words[r.Intn(len(words))])
-	}
 	raw := "/**\n"
-	for _, l := range lines {
+	for k := r.Intn(3) - 1; k > 0; k-- {
+		raw += " *\n"
+	}
+	for i := 0; i < n; i++ {
+		l := words[r.Intn(len(words))]
+		lines = append(lines, l)
 		raw += " * " + l + "\n"
+		if i < n-1 && r.Chance(1, 4) {
+			lines = append(lines, "")
+			raw += " *\n"
+		}
+	}
+	for k := r.Intn(3) - 1; k > 0; k-- {
+		raw += " *\n"
 	}
 	raw += " */"
 	return &Doc{Raw: raw, Want: strings.Join(lines, "\n")}
@@ -119,7 +145,7 @@ func randString(r *core.Rand) string {
 // RandIntLit draws an integer literal (decimal, signed or hex) and its value.
 func RandIntLit(r *core.Rand) (string, int64) {
 	v := r.Int64()
-	switch r.Intn(5) {
+	switch r.Intn(7) {
 	case 0:
 		if v >= 0 {
 			return "0x" + strconv.FormatInt(v, 16), v
@@ -131,8 +157,25 @@ func RandIntLit(r *core.Rand) (string, int64) {
 	case 2:
 		if v >= 0 {
 			u := strings.ToUpper(strconv.FormatInt(v, 16))
-			return "0x" + u, v
+			return "0x" + strings.Repeat("0", r.Intn(3)) + u, v
 		}
+	case 3:
+		// decimal with leading zeros stays decimal
+		z := strings.Repeat("0", r.Range(1, 3))
+		if v < 0 {
+			if v == -9223372036854775808 {
+				break
+			}
+			return "-" + z + strconv.FormatInt(-v, 10), v
+		}
+		return z + strconv.FormatInt(v, 10), v
+	case 4:
+		w := int64(r.Intn(100))
+		pre := []string{"0", "00", "+0", "-0"}[r.Intn(4)]
+		if pre == "-0" {
+			return pre + strconv.FormatInt(w, 10), -w
+		}
+		return pre + strconv.FormatInt(w, 10), w
 	}
 	return strconv.FormatInt(v, 10), v
 }
